@@ -109,6 +109,37 @@ CLAIMED = {
               "zero-length layouts; independent oracle from the per-base depth."),
         ref="DESIGN.md §5 C08",
         note=NOTE + "Sum of squares of the bed path is checked by correspondence + oracle; its theorem is the bigWig one (run3_sumsq) applied to squared depths."),
+    "C05": dict(
+        text=("Proof: for every fan-out b ≥ 2 and every non-empty start-sorted section list the builder terminates and searching the "
+              "tree it builds = linear scan with the code's inclusive overlap test, in order; child pointers of the level-order "
+              "layout are exactly the positions of the nodes below (every sibling but the last is full — proved); the reader's "
+              "byte-level explicit-stack search over the bytes the writer lays down = linear scan (all 2 ≤ b < 65536, any placement); "
+              "for ANY laid-out tree whose spans contain their leaves search = scan. Correspondence: exhaustive (n, b) shapes through "
+              "the public API (1–6 level trees, partial last nodes, 1–3 chromosomes, zoom trees, bigBed-shaped non-monotone ends), "
+              "boundary queries vs model and oracle; the byte-level reader MODEL on the implementation's own bytes vs the real "
+              "reader; the Lean certificate on every file."),
+        ref="DESIGN.md §5 C05",
+        note=NOTE + "Theorems for little-endian images (big-endian twin of the read lemma exists, BBI.uN_be)."),
+    "C13": dict(
+        text=("Proof: the decision logic of process_val (both writers) and of the serial source: any defective item at any position of "
+              "any run, or an unknown chromosome, makes the result an error; empty input and chromosome-order violations are refused; "
+              "valid streams are accepted; termination pieces: the zoom tiler (any resolution > 0), the index builder on non-empty "
+              "levels (and divergence on an empty level as found — D4), the autoSql parser. Correspondence: every violation class × "
+              "position × file type × source × pass mode, and valid degenerate inputs, under catch_unwind and a watchdog: error class "
+              "vs model (class-insensitive for the parallel source), refused inputs leave nothing a reader opens."),
+        ref="DESIGN.md §5 C13",
+        note=NOTE + "Termination of the whole write call is composed from the per-loop theorems by reading; tokio task scheduling is not modelled, "
+                    "hangs are searched by the watchdog runs."),
+    "C14": dict(
+        text=("Proof: whatever is written at whatever positions, while no write has put a non-zero byte into offsets 0..3 the image's "
+              "magic is zero, i.e. the readers reject it (hypothesis evaluated on the recorded operation log of every run); a buffered "
+              "writer ending in an explicit flush reports a failing destination (and the drop-flush of the code as found hides it — D9 "
+              "witness). Correspondence: recorded destination operations of real writes; EVERY prefix replayed and opened with the real "
+              "readers (rejected / complete / partial); the write repeated with the k-th destination operation failing for every k."),
+        ref="DESIGN.md §5 C14",
+        note=NOTE + "BufWriter is modelled from its documented behaviour; that the header write comes after all data, index and zoom writes is "
+                    "observed on every recorded log (model prediction r…r c…c), not proved from a writer model. Summary and data count are not "
+                    "among 'record, index, zoom level'. A panic on an injected failure is not counted as success."),
 }
 
 PENDING = ["C01", "C02", "C03", "C04", "C05", "C06", "C07", "C08", "C09", "C10", "C11", "C13", "C14", "C15", "C16",
